@@ -51,7 +51,12 @@ def gen_case(rng):
                "items": rng.choice(["none", "none", 0, 1, "n", "n+1", "n-1", "rand"]),
                "age": rng.choice(["none", "none", 0, 10, 15, 20, 3600, 100000, "oldest", "newest"]),
                "r": rng.random()}
-        rounds.append({"ops": ops, "limits": lim})
+        rnd = {"ops": ops, "limits": lim}
+        if rng.random() < 0.2:
+            # fault: the k-th deletion hits "[Errno 116] Stale file handle" (the entry was being removed by another cleaner:
+            # it is gone, but rmtree raises) -- the case enforce_store_limits documents and tolerates
+            rnd["stale_at"] = rng.randint(0, 3)
+        rounds.append(rnd)
     return {"rounds": rounds, "compress": rng.random() < 0.1}
 
 
@@ -125,12 +130,26 @@ def run_case(case):
             a = lim["age"]
             al = {"none": None, "oldest": ages[-1] if ages else 0, "newest": ages[0] if ages else 0}.get(a, a)
             hs.update(("|%s|%s|%s" % (b, it, a)).encode())
+            import joblib._store_backends as sb, shutil as _sh, types as _types
+            fired = [0]
+            if "stale_at" in rnd:
+                count = [0]
+
+                def rmtree(path, ignore_errors=False, onerror=None, **kw):
+                    k = count[0]; count[0] += 1
+                    _sh.rmtree(path, ignore_errors=True)
+                    if k == rnd["stale_at"]:
+                        fired[0] += 1
+                        raise OSError(116, "Stale file handle", path)
+                sb.shutil = _types.SimpleNamespace(rmtree=rmtree)
             try:
                 mem.reduce_size(bytes_limit=bl, items_limit=il, age_limit=None if al is None else _dt.timedelta(seconds=al))
             except BaseException as ex:  # noqa
                 verdict = {"class": "reduce_size_raised", "detail": "%s(%s) with limits %s" % (type(ex).__name__, ex, (bl, il, al)),
                            "sig": {"what": "reduce_size_raised", "exc": type(ex).__name__}}
                 break
+            finally_restore = sb.__dict__.__setitem__("shutil", _sh)
+            stats["stale"] = stats.get("stale", 0) + fired[0]
             surv = {i for i, e in live.items() if os.path.exists(os.path.join(e["path"], "output.pkl"))}
             ev = set(live) - surv
             stats["evicted"] += len(ev)
@@ -179,7 +198,7 @@ def run_case(case):
             if verdict:
                 break
         return {"verdict": verdict, "digest": h.hexdigest()[:24], "shape": hs.hexdigest()[:16], "steps": sum(len(r["ops"]) for r in case["rounds"]),
-                "switches": 0, "sim_time": clock.now - 1.7e9, "faults": {}, "nontrivial": nontrivial,
+                "switches": 0, "sim_time": clock.now - 1.7e9, "faults": {"stale_file_handle_in_rmtree": stats["stale"]} if stats.get("stale") else {}, "nontrivial": nontrivial,
                 "probes": {"reduce_with_ties_in_access_time": stats["ties"], "exact_fit_limit": stats["exact_fit"], "entries_evicted": stats["evicted"]},
                 "sample": case["rounds"][0]}
     finally:
